@@ -62,6 +62,8 @@ scen('established', dict(initiator='A', budget=dict(trig=2, fault=0 if ck.quick 
      ('rekey_ike', 'delete_ike', 'acquire', 'soft'))
 # the successor ends (delete exchange) while copies of the rekey messages are still around
 scen('established', dict(initiator='A', budget=dict(trig=2, fault=1)), ('rekey_ike', 'delete_ike'))
+# kernel expiry notices while a liveness check or another exchange is outstanding
+scen('established', dict(initiator='A', budget=dict(trig=2, fault=0)), ('dpd', 'soft', 'hard'))
 # simultaneous initiation by both peers
 scen('empty', dict(budget=dict(trigA=1, trigB=1, fault=1 if ck.quick else 2)), ('acquire',))
 # a third peer
@@ -257,13 +259,20 @@ def injection_sweep(worlds):
                             for exch in (34, 35, 36, 37, 0, 255):
                                 if exch == 34 and not rflag:
                                     continue     # creates state by design; covered by the exploration
-                                for mid in (0, 1):
-                                    data = struct.pack('>8s8s4B2L', a, b, 0, 0x20, exch, iflag | rflag, mid, 28)
+                                for mid, body in ((0, b''), (1, b''), (0, struct.pack('>BBH', 0, 0, 400) + b'x' * 8)):
+                                    first = 40 if body else 0
+                                    data = struct.pack('>8s8s4B2L', a, b, first, 0x20, exch, iflag | rflag, mid, 28 + len(body)) + body
                                     ev = ('inject', name, data, peer_addr)
                                     w = w0.fork()
                                     w.step(ev)
                                     n += 1
                                     res = list(m_route(w0, ev, w))
+                                    if body and w.endpoints[name].alive and (
+                                            table_of(w0.endpoints[name]) != table_of(w.endpoints[name])
+                                            or set(w0.endpoints[name].kernel.sad) != set(w.endpoints[name].kernel.sad)):
+                                        res.append(('M-route', 'unparsable-datagram-changes-table',
+                                                    'a datagram whose payloads cannot be parsed changed the IKE_SA table or the SAD: '
+                                                    '%s -> %s' % (table_of(w0.endpoints[name]), table_of(w.endpoints[name]))))
                                     outcomes.add((ka, kb, bool(iflag), bool([c for c in w.step_calls
                                                                              if c[0] == 'process_message'])))
                                     for mon, sig, msg in res:
@@ -283,6 +292,10 @@ def injection_sweep(worlds):
                         ck.violation('%s:%s' % (mon, sig), msg + ' [state %s]' % label,
                                      dict(scenario=dict(name='inject', label=label), history=w.history))
     return n, len(outcomes)
+
+
+def table_of(ep):
+    return [(s.my_spi.hex(), s.state.name, len(s.child_sas)) for s in ep.controller.ike_sas]
 
 
 def representative_worlds():
